@@ -155,8 +155,10 @@ Definition sstep (fx : bool) (st : sstate) (o : sop) : sstate * list Z :=
   end.
 
 (* end of the history: everything still owned is released (held tokens, then the cache) *)
+Definition sfinish_held (fx : bool) (st : sstate) : sstate :=
+  fold_left (release_tok fx) (sheld st) (SS (mgrs st) [] (scr st) (scw st) (dangling st)).
 Definition sfinish (fx : bool) (st : sstate) : sstate :=
-  let st1 := fold_left (release_tok fx) (sheld st) (SS (mgrs st) [] (scr st) (scw st) (dangling st)) in
+  let st1 := sfinish_held fx st in
   release_opt fx (release_opt fx (SS (mgrs st1) [] None None (dangling st1)) (scr st1)) (scw st1).
 
 Definition sinit : sstate := SS [] [] None None 0.
@@ -167,17 +169,18 @@ Definition mgr_obs (g : mgr) : list Z :=
   else [(-2)%Z].
 Definition sobs (st : sstate) (r : list Z) : list Z := r ++ flat_map mgr_obs (mgrs st).
 
-Fixpoint srun (fx : bool) (ops : list sop) (st : sstate) : list (list Z) * sstate :=
+(* `leave`: the cache is left to the thread-exit destructor (not observed) *)
+Fixpoint srun (fx leave : bool) (ops : list sop) (st : sstate) : list (list Z) * sstate :=
   match ops with
-  | [] => let st' := sfinish fx st in ([sobs st' []], st')
+  | [] => let st' := if leave then sfinish_held fx st else sfinish fx st in ([sobs st' []], st')
   | o :: r => let '(st', res) := sstep fx st o in
-              let '(tr, fin) := srun fx r st' in
+              let '(tr, fin) := srun fx leave r st' in
               (sobs st' res :: tr, fin)
   end.
 
-Definition seq_case : Type := (list sop * list (list Z))%type.
+Definition seq_case : Type := (bool * list sop * list (list Z))%type.
 Definition seq_ok (c : seq_case) : bool :=
-  let '(ops, obs) := c in eqb_llz (fst (srun true ops sinit)) obs.
+  let '(leave, ops, obs) := c in eqb_llz (fst (srun true leave ops sinit)) obs.
 
 (* ---- what the property says about such histories ---- *)
 (* writer tokens that manager i's acquire calls have handed out and that are still held *)
